@@ -141,6 +141,23 @@ fn handle(v: &Value) -> Value {
         "glob" => json!(util::convert_glob_to_pattern(v["s"].as_str().unwrap())),
         "like" => json!(util::convert_like_to_pattern(v["s"].as_str().unwrap())),
         "is_glob" => json!(util::is_glob(v["s"].as_str().unwrap())),
+        // the filters the real search_upstream_* builds from an ignore file with the given lines, placed in the
+        // directory `dir` (created by the caller; canonical), and the verdicts of matches_*_filter on `dir/rel`
+        "ignore" => {
+            let dir = std::path::PathBuf::from(v["dir"].as_str().unwrap());
+            let rels = strs(&v["rels"]);
+            if v["tool"].as_str().unwrap() == "docker" {
+                let mut fs = vec![];
+                ignore::docker::search_upstream_dockerignore(&mut fs, &dir);
+                let verdicts: Vec<bool> = rels.iter().map(|r| ignore::docker::matches_dockerignore_filter(&fs, &format!("{}/{}", dir.display(), r))).collect();
+                json!({"filters": fs.iter().map(|f| json!([f.regex.as_str(), f.negate])).collect::<Vec<_>>(), "verdicts": verdicts})
+            } else {
+                let mut fs = vec![];
+                ignore::hg::search_upstream_hgignore(&mut fs, &dir);
+                let verdicts: Vec<bool> = rels.iter().map(|r| ignore::hg::matches_hgignore_filter(&fs, &format!("{}/{}", dir.display(), r))).collect();
+                json!({"filters": fs.iter().map(|f| json!([f.regex.as_str(), false])).collect::<Vec<_>>(), "verdicts": verdicts})
+            }
+        }
         "regex" => match regex::Regex::new(v["p"].as_str().unwrap()) {
             Ok(r) => json!({"ok": r.is_match(v["s"].as_str().unwrap())}),
             Err(e) => json!({"err": format!("{}", e)}),
